@@ -4,6 +4,7 @@ from __future__ import annotations
 import ast
 import copy
 from collections import deque
+from os.path import isfile
 from typing import TYPE_CHECKING
 
 import attrs
@@ -166,6 +167,11 @@ def parse_and_analyse_imports(
             continue
 
         if not config.arguments.follow_stdlib_imports and is_in_stdlib(name):
+            continue
+
+        # Extension, frozen, and built-in modules have no Python source to analyse
+        if not spec.origin.endswith(".py") or not isfile(spec.origin):
+            error.error(f"unable to analyse non-Python module {name!r}")
             continue
 
         with read(spec.origin) as (import_file_lines, import_file_source):
